@@ -30,6 +30,8 @@ ASSUMPTIONS = [
     "graphs are well-formed: distinct hashable nodes, successor collections without repetition, every "
     "successor is a key (otherwise the code raises KeyError: malformed stream)",
     "find_cycle is not part of this property",
+    "toposort_all recurses once per vertex: beyond CPython's recursion limit (about 990 vertices) the code raises "
+    "RecursionError where the model (C19_total) returns; such sizes are outside the check",
     "theorems are about nodes = natural numbers; str nodes are mapped to ints for the model",
 ]
 OPEN = []
@@ -87,12 +89,16 @@ def run_graph_impl(case):
         out["all"] = [[dec_node(x) for x in o] for o in r]
     except Exception as e:  # noqa
         out["all"] = {"err": type(e).__name__}
+    if g != build_graph(case) or list(g) != list(build_graph(case)):
+        out["mutated"] = "toposort_all"
     g = build_graph(case)
     try:
         r = toposort(g)
         out["one"] = None if r is None else [dec_node(x) for x in r]
     except Exception as e:  # noqa
         out["one"] = {"err": type(e).__name__}
+    if g != build_graph(case) or list(g) != list(build_graph(case)):
+        out["mutated"] = "toposort"
     return out
 
 
@@ -101,6 +107,8 @@ def graph_spec(case, io):
     verts = [v for v, _ in case["graph"]]
     want = oracle_orders(graph_edges(case), verts)
     got_all, got_one = io["all"], io["one"]
+    if "mutated" in io:  # the model is pure: the caller's graph must be left as it was
+        return f"{io['mutated']} modified the graph it was given", want
     if isinstance(got_all, dict):
         return f"toposort_all raised {got_all['err']}", want
     if isinstance(got_one, dict):
@@ -331,8 +339,10 @@ def check_prec(ctx, res, cases):
         if bad:
             res.violation("_make_prec_graph + toposort_all: " + bad, c, observed=io)
             continue
-        if "err" in mo or canon_graph(mo["ok"]) != io["graph"]:
-            res.tie_broken("_make_prec_graph (keys in insertion order, successor sets)", c, mo, io["graph"])
+        # a dict of successor SETS: the insertion order of the keys cannot be observed through toposort /
+        # toposort_all (both start from set(graph) / in-degrees), so it is not compared
+        if "err" in mo or sorted(canon_graph(mo["ok"])) != sorted(io["graph"]):
+            res.tie_broken("_make_prec_graph (as a dict of successor sets)", c, mo, io["graph"])
 
 
 CORPUS_GRAPHS = [
